@@ -160,8 +160,14 @@ impl ZoneSurfFilter {
 
         for zp in zone_plans {
             let mut dynamic_keys: Vec<String> = Vec::new();
-            if let Some(event) = zp.events.get(0) {
-                dynamic_keys.extend(event.payload.keys().cloned());
+            // Union of the payload keys of ALL events of the zone (an optional field may be
+            // absent from the first event and present in later ones)
+            for event in &zp.events {
+                for k in event.payload.keys() {
+                    if !dynamic_keys.contains(k) {
+                        dynamic_keys.push(k.clone());
+                    }
+                }
             }
             for key in dynamic_keys {
                 if !allowed_fields.contains(&key) {
